@@ -836,6 +836,25 @@ def judge(m, W, Kval, conds, actions, ret, final, depth=0):
                 out += judge(m, W, Kval, conds + [c], actions, ret, final, depth + 1)
             return out
         calls = []
+    if m == "last" and not calls:
+        # a written-out last(): the receiver is consumed, so only the answer matters - it must be the ideal final row of the
+        # cursor as it stands (None on the exhausted cursor), whatever becomes of the cursor's own fields
+        def dec3(c):
+            r = _dec(conds, c)
+            if r is None: raise NeedCond(c)
+            return r
+        try:
+            _, want = step_on(Slice(ZERO, L), W, Kval, True, dec3)
+        except NeedCond as e:
+            if depth >= 5:
+                return [(False, conds, show_got(), "case split differs from the ideal: %r stays undecided" % (e.c,))]
+            out = []
+            for c in (e.c, e.c.neg()):
+                if _dec(conds, c) is False:
+                    continue
+                out += judge(m, W, Kval, conds + [c], actions, ret, final, depth + 1)
+            return out
+        return [(ok and same_value(conds, ret, want), conds, show_got(), "expected ret=%r (the ideal final row; the receiver is consumed)" % (want,))]
     if any(a[0] == "SUBST_L" for a in actions):
         # the code asked for len(): m items, L = (m-1)*(W+K) + W; compare both sides after eliminating L
         repl = (Poly.atom("m") - ONE) * (W + Kval) + W
